@@ -171,7 +171,7 @@ theorem demoTopo_wf : demoTopo.WF where
 
 /-- submit, the task travels down, the client blocks in `result`, worker 2 is killed -/
 def demoRun : List Label :=
-  [.ccall 0 .submit, .recvClient 0 [(.emp 1, .other 5)] false, .flush 0,
+  [.ccall 0 (.submit 0), .recvClient 0 [(.emp 1, .other 5)] false, .flush 0,
    .recvUp 1 [(.emp 2, .other 5)] false, .flush 1, .wrecv 2, .ccall 0 (.request 0),
    .recvClient 0 [] false, .crash 2 false]
 
@@ -214,7 +214,7 @@ server, its threads or the client is enabled any more. -/
 def hangTopo : Topo := Topo.ofList [(0, 0), (0, 2)] true
 
 def hangRun : List Label :=
-  [.ccall 0 .submit, .recvClient 0 [(.emp 1, .other 5)] false, .ccall 0 (.request 0),
+  [.ccall 0 (.submit 0), .recvClient 0 [(.emp 1, .other 5)] false, .ccall 0 (.request 0),
    .recvClient 0 [] false, .crash 1 false, .outReset 0]
 
 def hangState : State := (run hangTopo init hangRun).getD init
